@@ -580,7 +580,12 @@ pub fn one_case(case: u64, seed: u64, sh: &mut Shard) -> V {
         let mc = unsafe { MmioCam::new(base as usize as *mut u8, cam) };
         let mut root = PciRoot::new(mc);
         sh.inc("constructions_via_mmiocam", 1);
-        catch_unwind(AssertUnwindSafe(|| PciTransport::new::<LedgerHal, _>(&mut root, s.df)))
+        let r = catch_unwind(AssertUnwindSafe(|| PciTransport::new::<LedgerHal, _>(&mut root, s.df)));
+        // the configuration window is only needed during construction; left mapped it can shadow a
+        // generated 64-bit BAR that happens to land on the same fabricated address (seen once in
+        // 4.5e8 cases: ISR reads answered by the CAM model)
+        mmio_bus::unmap(base);
+        r
     } else {
         let mut root = PciRoot::new(ModelCam { f: frc.clone() });
         catch_unwind(AssertUnwindSafe(|| PciTransport::new::<LedgerHal, _>(&mut root, s.df)))
